@@ -40,13 +40,25 @@ func ensureSandbox() {
 	}
 	sandbox = dir
 	cleanups = append(cleanups, func() { os.RemoveAll(dir) })
-	for i, c := range [][]byte{[]byte("Hello world!"), []byte("{\"id\": 7}\n"), bytes.Repeat([]byte("z"), 70000), {0, 1, 2, 255}, []byte("\n\nGET http://not-a-target/\n")} {
+	for i, c := range [][]byte{[]byte("Hello world!"), []byte("{\"id\": 7}\n"), bytes.Repeat([]byte("z"), 70000), {0, 1, 2, 255}, []byte("\n\nGET http://not-a-target/\n"), []byte("colon in the path")} {
 		bodyFiles = append(bodyFiles, c)
-		if err := os.WriteFile(filepath.Join(dir, fmt.Sprintf("body%d.bin", i)), c, 0o644); err != nil {
+		if err := os.WriteFile(filepath.Join(dir, bodyFileName(i)), c, 0o644); err != nil {
 			fmt.Println("INFRA:", err)
 			os.Exit(2)
 		}
 	}
+}
+
+// bodyFileName: the names a body file may have include ones that look like other parts of the grammar
+// (a colon with text on both sides, as in a header line; blanks inside)
+func bodyFileName(i int) string {
+	switch i {
+	case 5:
+		return "body-2024-01-01T12:30:00.json"
+	case 3:
+		return "body 3.bin"
+	}
+	return fmt.Sprintf("body%d.bin", i)
 }
 
 type tgtSpec struct {
@@ -213,7 +225,7 @@ func runTargets(t *simrt.Tape, keep bool) simrt.Outcome {
 			}
 			if s.bodyFile >= 0 {
 				comment()
-				file.WriteString("@" + filepath.Join(sandbox, fmt.Sprintf("body%d.bin", s.bodyFile)) + "\n")
+				file.WriteString("@" + filepath.Join(sandbox, bodyFileName(s.bodyFile)) + "\n")
 			}
 			// blank-line separators where the manual shows them: always after a target with headers or a body,
 			// optional between header-less targets; none needed after the last target
